@@ -43,3 +43,20 @@ def natLE : Nat → Nat → List UInt8
 def parseNat (s : String) : Option Nat := s.toNat?
 
 end Bee2V.Proto
+
+namespace Bee2V.Proto
+
+partial def loopAux (hin hout : IO.FS.Stream) (dispatch : List String → String) : IO Unit := do
+  let line ← hin.getLine
+  if line.isEmpty then return ()
+  hout.putStrLn (dispatch (line.trimAscii.toString.splitOn " "))
+  loopAux hin hout dispatch
+
+/-- the line loop of every per-area driver: one op per line in, one result line out -/
+def runLoop (dispatch : List String → String) : IO Unit := do
+  let hin ← IO.getStdin
+  let hout ← IO.getStdout
+  loopAux hin hout dispatch
+  hout.flush
+
+end Bee2V.Proto
